@@ -307,6 +307,7 @@ func startLitefsLeaseOnce(dir, leaseYAML, extraYAML string) (*litefsProc, error)
 	p := &litefsProc{dir: dir, mnt: filepath.Join(dir, "mnt"), data: filepath.Join(dir, "data"), addr: fmt.Sprintf("127.0.0.1:%d", port), done: make(chan struct{})}
 	_ = os.MkdirAll(p.mnt, 0o755)
 	_ = os.MkdirAll(p.data, 0o755)
+	staticPrimary := leaseYAML == ""
 	if leaseYAML == "" {
 		leaseYAML = "  type: \"static\"\n  candidate: true\n  hostname: \"n0\"\n  advertise-url: \"http://%ADDR%\"\n"
 	}
@@ -347,8 +348,16 @@ lease:
 		}
 		if p.mounted() {
 			if resp, err := http.Get("http://" + p.addr + "/info"); err == nil {
+				var info struct {
+					IsPrimary bool `json:"isPrimary"`
+				}
+				_ = json.NewDecoder(resp.Body).Decode(&info)
 				resp.Body.Close()
-				return p, nil
+				// (mount and API answer before the lease loop has run: a node that
+				// is configured as the static primary is ready once it IS primary)
+				if !staticPrimary || info.IsPrimary {
+					return p, nil
+				}
 			}
 		}
 		time.Sleep(10 * time.Millisecond)
